@@ -644,6 +644,45 @@ def gen_checker_cases(rng, n, depth=None):
     return cases
 
 
+def big_cases(rng, n):
+    """LONG containers (100-400 elements / entries), all conforming or with exactly one non-conforming element at a random
+    position: the element loops are universal whatever the length (a check that samples or stops early must show)"""
+    cases = []
+    elems = [(cls_term(int), lambda i: lit(i % 7), lit('x')), (cls_term(str), lambda i: lit('ab'[i % 2]), lit(3)),
+             (["union", "optional", [cls_term(int), ["cls", IDX[NoneType]]]], lambda i: lit(None) if i % 5 == 0 else lit(i % 3), lit('x')),
+             (["seq", "typing", "list", cls_term(int)], lambda i: ["coll", IDX[list], [lit(i % 4)]], ["coll", IDX[list], [lit('y')]]),
+             (cls_term(P), lambda i: ["inst", IDX[C1 if i % 2 else P]], ["inst", IDX[U]])]
+    for _ in range(n):
+        et, good, bad = rng.choice(elems)
+        size = rng.randint(100, 400)
+        vals = [good(i) for i in range(size)]
+        corrupted = rng.random() < 0.6
+        if corrupted:
+            vals[rng.choice([0, size - 1, size // 2, rng.randrange(size), rng.randrange(size)])] = bad
+        sp = rng.choice(['typing', 'pep585'])
+        shape = rng.choice(['list', 'list', 'tuplevar', 'dictval', 'dictkey', 'deque', 'sequence', 'iterable'])
+        if shape == 'tuplevar':
+            at, vt = ["tuplevar", sp, et], ["tup", IDX[tuple], vals]
+        elif shape == 'dictval':
+            at, vt = ["map", sp, "dict", cls_term(int), et], ["mapping", IDX[dict], [[lit(i), v] for i, v in enumerate(vals)]]
+        elif shape == 'dictkey' and et in (cls_term(int), cls_term(str)):
+            keys = [lit(i) for i in range(size)] if et == cls_term(int) else [lit('k%d' % i) for i in range(size)]
+            if corrupted:
+                keys[rng.randrange(size)] = lit(2.5)
+            at, vt = ["map", sp, "dict", et, cls_term(int)], ["mapping", IDX[dict], [[k, lit(0)] for k in keys]]
+        elif shape == 'deque':
+            at, vt = ["seq", sp, "deque", et], ["coll", IDX[collections.deque], vals]
+        elif shape in ('sequence', 'iterable'):
+            at, vt = ["seq", sp, shape, et], ["coll" if rng.random() < 0.5 else "tup", None, vals]
+            vt[1] = IDX[list] if vt[0] == 'coll' else IDX[tuple]
+        else:
+            at, vt = ["seq", sp, "list", et], ["coll", IDX[list], vals]
+        at, _ = canon_ann(at)
+        vt, _ = canon_val(vt)
+        cases.append(mk_case(at, vt, kind='big-corrupted' if corrupted else 'big-conforming'))
+    return cases
+
+
 def small_terms():
     """exhaustive family used by the thorough tier: every annotation of depth <= 2 over a base alphabet x origins x spellings"""
     base = [cls_term(int), cls_term(str), ["union", "optional", [cls_term(int), ["cls", IDX[NoneType]]]], cls_term(P)]
